@@ -1,5 +1,5 @@
 ------------------------- MODULE RouterLifecycleTrace -------------------------
-(* Trace validation for C10.  Events: reset | addh h pub | addplugin i ok | plugin i | adddup h panicked | subscribed h ctx | runcall | running |
+(* Trace validation for C10.  Events: reset | addh h pub | addplugin i ok | plugin i | adddup h panicked | subscribed h ctx | runcall | running | notrunning |
    runret k ok | rhcall i | rhret i ok | started h | stopcall h | stopret h | stopped h |
    probe h ok | cancelrun | closecall | closeret ok | closedseen | quiesce unstopped      (stoppanic / stoppednil match no action) *)
 EXTENDS RouterLifecycleAbs, TraceBase
@@ -16,6 +16,7 @@ TNext == \/ TReset
          \/ Is("subscribed") /\ Subscribed(Ev.h, Ev.ctx) /\ Adv
          \/ Is("runcall") /\ RunCall /\ Adv
          \/ Is("running") /\ RunningSeen /\ Adv
+         \/ Is("notrunning") /\ UNCHANGED lvars /\ Adv
          \/ Is("runret") /\ (IF Ev.k = 1 THEN RunRetFirst(Ev.ok) ELSE RunRetSecond(Ev.ok)) /\ Adv
          \/ Is("rhcall") /\ RHCall(Ev.i) /\ Adv
          \/ Is("rhret") /\ RHRet(Ev.i, Ev.ok) /\ Adv
@@ -26,7 +27,8 @@ TNext == \/ TReset
          \/ Is("probe") /\ Probe(Ev.h, Ev.ok) /\ Adv
          \/ Is("cancelrun") /\ CancelRun /\ Adv
          \/ Is("closecall") /\ CloseCall /\ Adv
-         \/ Is("closeret") /\ Ev.ok /\ UNCHANGED lvars /\ Adv
+         \* (Close on a router that never ran waits for handlers that never start and reports its time-out)
+         \/ Is("closeret") /\ (Ev.ok \/ runs = 0) /\ UNCHANGED lvars /\ Adv
          \/ Is("closedseen") /\ ClosedSeen /\ Adv
          \/ Is("quiesce") /\ QuiescentL(Ev.unstopped) /\ UNCHANGED lvars /\ Adv
 TSpec == TInit /\ [][TNext]_tvars
